@@ -11,7 +11,7 @@ for d in /tmp/mut/C*/out/m*; do
   id=$(echo $d | sed 's|/tmp/mut/\(C[0-9]*\)/out/\(m[0-9]*\)|\1-\2|')
   [ -f $OUT/$id.txt ] && continue
   [ -f $d/patch.diff ] || continue
-  base=$(git -C $(dirname $(dirname $d)) rev-parse HEAD)
+  base=$(git -C /repo rev-parse HEAD)
   rm -rf $WT; git -C /repo worktree prune; git -C /repo worktree add -q --detach $WT $base || continue
   cmd=$(python3 -c "import json;print(json.load(open('$d/meta.json'))['demo_cmd'])")
   res="id=$id base=$base"
